@@ -1,11 +1,11 @@
 package verifsim
 
 import (
+	"bytes"
+	"encoding/asn1"
+	"fmt"
 	"golang.org/x/crypto/cryptobyte"
 	cbasn1 "golang.org/x/crypto/cryptobyte/asn1"
-	"encoding/asn1"
-	"bytes"
-	"fmt"
 	"runtime"
 	"strings"
 	"syscall"
@@ -192,24 +192,24 @@ var c07algOIDs = func() (out []asn1.ObjectIdentifier) {
 			out = append(out, append(append(asn1.ObjectIdentifier(nil), prefix...), i))
 		}
 	}
-	fam([]int{1, 2, 840, 113549, 1, 1}, 1, 20)      // PKCS#1: rsaEncryption, md2/md4/md5/sha*WithRSA, PSS, sha512-224/256
-	fam([]int{1, 2, 840, 10045, 4}, 1, 3)            // ecdsa-with-SHA1 / Recommended / Specified
-	fam([]int{1, 2, 840, 10045, 4, 3}, 1, 6)         // ecdsa-with-SHA2
-	fam([]int{1, 3, 14, 3, 2}, 2, 29)                // OIW: md4WithRSA, md5WithRSA, dsaWithSHA, sha1, sha1WithRSA ...
-	fam([]int{1, 3, 36, 3, 3, 1}, 1, 4)              // TeleTrusT rsaSignatureWithripemd160/128/256
-	fam([]int{1, 3, 36, 3, 3, 2}, 1, 8)              // TeleTrusT ecSign*
-	fam([]int{1, 3, 36, 3, 2}, 1, 3)                 // ripemd160/128/256
-	fam([]int{2, 16, 840, 1, 101, 3, 4, 3}, 1, 16)   // NIST: dsa-with-sha2, ecdsa/rsa with SHA-3
-	fam([]int{2, 16, 840, 1, 101, 3, 4, 2}, 1, 12)   // NIST hashes sha2, sha3, shake
-	fam([]int{1, 2, 840, 10040, 4}, 1, 3)            // DSA
-	fam([]int{1, 3, 101}, 110, 113)                  // X25519, X448, Ed25519, Ed448
-	fam([]int{1, 2, 643, 2, 2}, 3, 4)                // GOST R 34.10-2001
-	fam([]int{1, 2, 643, 7, 1, 1, 3}, 2, 3)          // GOST R 34.10-2012
-	fam([]int{1, 2, 156, 10197, 1}, 501, 504)        // SM2 with SM3 ...
-	fam([]int{1, 2, 840, 113549, 2}, 2, 5)           // md2, md4, md5
-	fam([]int{1, 3, 6, 1, 4, 1, 11591, 15}, 1, 1)    // Ed25519 (GnuPG arc)
+	fam([]int{1, 2, 840, 113549, 1, 1}, 1, 20)          // PKCS#1: rsaEncryption, md2/md4/md5/sha*WithRSA, PSS, sha512-224/256
+	fam([]int{1, 2, 840, 10045, 4}, 1, 3)               // ecdsa-with-SHA1 / Recommended / Specified
+	fam([]int{1, 2, 840, 10045, 4, 3}, 1, 6)            // ecdsa-with-SHA2
+	fam([]int{1, 3, 14, 3, 2}, 2, 29)                   // OIW: md4WithRSA, md5WithRSA, dsaWithSHA, sha1, sha1WithRSA ...
+	fam([]int{1, 3, 36, 3, 3, 1}, 1, 4)                 // TeleTrusT rsaSignatureWithripemd160/128/256
+	fam([]int{1, 3, 36, 3, 3, 2}, 1, 8)                 // TeleTrusT ecSign*
+	fam([]int{1, 3, 36, 3, 2}, 1, 3)                    // ripemd160/128/256
+	fam([]int{2, 16, 840, 1, 101, 3, 4, 3}, 1, 16)      // NIST: dsa-with-sha2, ecdsa/rsa with SHA-3
+	fam([]int{2, 16, 840, 1, 101, 3, 4, 2}, 1, 12)      // NIST hashes sha2, sha3, shake
+	fam([]int{1, 2, 840, 10040, 4}, 1, 3)               // DSA
+	fam([]int{1, 3, 101}, 110, 113)                     // X25519, X448, Ed25519, Ed448
+	fam([]int{1, 2, 643, 2, 2}, 3, 4)                   // GOST R 34.10-2001
+	fam([]int{1, 2, 643, 7, 1, 1, 3}, 2, 3)             // GOST R 34.10-2012
+	fam([]int{1, 2, 156, 10197, 1}, 501, 504)           // SM2 with SM3 ...
+	fam([]int{1, 2, 840, 113549, 2}, 2, 5)              // md2, md4, md5
+	fam([]int{1, 3, 6, 1, 4, 1, 11591, 15}, 1, 1)       // Ed25519 (GnuPG arc)
 	fam([]int{1, 3, 6, 1, 4, 1, 1722, 12, 2, 1}, 5, 16) // BLAKE2b
-	fam([]int{2, 999}, 1, 2)                         // example arc
+	fam([]int{2, 999}, 1, 2)                            // example arc
 	return
 }()
 
